@@ -17,13 +17,14 @@ from .c11_nets import masked_logp
 
 warnings.filterwarnings("ignore")
 INV = ["M_Action", "M_Pad", "M_Reward", "M_LL", "End"]
+MULTISTART = ("tsp", "cvrp", "sdvrp", "op", "pctsp", "cvrptw")   # envs decoded with multi-start greedy + select_best as well
 
 
 def policy_matrix(tier):
     from rl4co.models.zoo import AttentionModelPolicy
     kw = dict(embed_dim=32, num_encoder_layers=2, num_heads=2)
     out = [("AM", e, (lambda e=e: AttentionModelPolicy(env_name=e, **kw))) for e in
-           (("tsp", "cvrp", "op", "pdp", "pctsp", "sdvrp", "cvrptw", "mtsp", "svrp") if tier == "quick" else
+           (("tsp", "cvrp", "op", "pdp", "pctsp", "sdvrp", "cvrptw", "mtsp", "svrp", "mtvrp") if tier == "quick" else
             ("tsp", "cvrp", "op", "pdp", "pctsp", "spctsp", "sdvrp", "cvrptw", "atsp", "mtsp", "svrp", "mtvrp"))]
     try:
         from rl4co.models.zoo import HeterogeneousAttentionModelPolicy
@@ -74,9 +75,44 @@ def margins(policy, env, td1, actions):
         return None
 
 
-def decode(policy, env, td):
+def decode(policy, env, td, mode="greedy"):
     with torch.no_grad():
-        return policy(td.clone(), env, decode_type="greedy")
+        if mode == "greedy":
+            return policy(td.clone(), env, decode_type="greedy")
+        return policy(td.clone(), env, decode_type="multistart_greedy", num_starts=KSTART, select_best=True)
+
+
+KSTART = 3
+
+
+def margins_multistart(policy, env, td1):
+    """smallest top-2 margin over the KSTART replicas of ONE instance at every step of its multi-start greedy decode"""
+    from rl4co.utils.ops import batchify
+    try:
+        with torch.no_grad():
+            allr = policy(td1.clone(), env, decode_type="multistart_greedy", num_starts=KSTART, select_best=False)
+            actions = allr["actions"]
+            td = td1.clone()
+            hidden, _ = policy.encoder(td)
+            td = batchify(td, KSTART)
+            td.set("action", actions[:, 0])
+            td = env.step(td)["next"]
+            td, env, hidden = policy.decoder.pre_decoder_hook(td, env, hidden, KSTART)
+            out = [1_000_000]
+            for t in range(1, actions.shape[1]):
+                logits, mask = policy.decoder(td, hidden, KSTART)
+                lp = masked_logp(logits, mask, policy.tanh_clipping, policy.temperature)
+                worst = 1_000_000
+                for r in range(lp.shape[0]):
+                    top = torch.topk(lp[r], min(2, lp.shape[1])).values
+                    if top.numel() == 2 and torch.isfinite(top[1]):
+                        worst = min(worst, int(round(float(top[0] - top[1]) * 1e6)))
+                out.append(worst)
+                td.set("action", actions[:, t])
+                td = env.step(td)["next"]
+        return out
+    except Exception:
+        return None
 
 
 def run(tier, seed):
@@ -90,22 +126,15 @@ def run(tier, seed):
     n_inst = 4 if tier == "quick" else 12
     for (pname, ename, mk) in policy_matrix(tier):
         try:
-            env = get_env(ename, generator_params={"num_loc": 10 if tier == "quick" else rnd.choice([10, 20])})
+            gp = {"num_loc": 10 if tier == "quick" else rnd.choice([10, 20])}
+            if ename == "mtvrp":
+                gp["variant_preset"] = "all"          # mixed variants in one batch
+            env = get_env(ename, generator_params=gp)
             policy = mk().eval()
             tdg = env.generator(batch_size=[n_inst])
         except Exception as e:
             skipped.append("%s/%s: %s" % (pname, ename, str(e)[:80]))
             continue
-        solos = []
-        for i in range(n_inst):
-            td1 = env.reset(tdg[i:i + 1].clone())
-            o = decode(policy, env, td1)
-            m = margins(policy, env, td1, o["actions"])
-            if m is None:
-                m = [1_000_000] * o["actions"].shape[1]      # no margin information: every step is constrained
-            solos.append({"actions": [int(a) + 1 for a in o["actions"][0].tolist()], "reward": int(round(float(o["reward"][0]) * 1e6)),
-                          "ll": int(round(float(o["log_likelihood"][0]) * 1e6)), "margin": m})
-        rows = [[] for _ in range(n_inst)]
         comps = [[i, i, i] for i in range(n_inst)]
         comps += [[i, (i + 1) % n_inst] for i in range(n_inst)] + [[(i + 1) % n_inst, i] for i in range(n_inst)]
         for size in ((n_inst, 8) if tier == "quick" else (3, n_inst, 8, 32)):
@@ -114,18 +143,34 @@ def run(tier, seed):
         perm = list(range(n_inst))
         rnd.shuffle(perm)
         comps.append(perm)
-        for comp in comps:
-            td = env.reset(tdg[torch.tensor(comp)].clone())
-            o = decode(policy, env, td)
-            for pos, i in enumerate(comp):
-                a = [int(x) + 1 for x in o["actions"][pos].tolist()]
-                T = len(solos[i]["actions"])
-                if len(a) < T:
-                    a = a + [0] * (T - len(a))        # shorter than the solo decode: mismatch shows at the first missing step
-                rows[i].append({"actions": a, "reward": int(round(float(o["reward"][pos]) * 1e6)),
-                                "ll": int(round(float(o["log_likelihood"][pos]) * 1e6)), "size": len(comp), "pos": pos})
-        for i in range(n_inst):
-            recs.append({"policy": pname, "env": ename, "inst": i, "solo": solos[i], "rows": rows[i], "pad": 1})
+        modes = ["greedy"] + (["multistart"] if (ename in MULTISTART and pname == "AM") else [])
+        for mode in modes:
+            solos = []
+            for i in range(n_inst):
+                td1 = env.reset(tdg[i:i + 1].clone())
+                o = decode(policy, env, td1, mode)
+                T = o["actions"].shape[1]
+                m = margins(policy, env, td1, o["actions"]) if mode == "greedy" else margins_multistart(policy, env, td1)
+                if m is None:
+                    m = [1_000_000] * T                   # no margin information: every step is constrained
+                m = (list(m) + [1_000_000] * T)[:T]
+                solos.append({"actions": [int(a) + 1 for a in o["actions"][0].tolist()],
+                              "reward": int(round(float(o["reward"][0]) * 1e6)),
+                              "ll": int(round(float(o["log_likelihood"][0]) * 1e6)), "margin": m})
+            rows = [[] for _ in range(n_inst)]
+            for comp in (comps if mode == "greedy" else comps[n_inst:]):
+                td = env.reset(tdg[torch.tensor(comp)].clone())
+                o = decode(policy, env, td, mode)
+                for pos, i in enumerate(comp):
+                    a = [int(x) + 1 for x in o["actions"][pos].tolist()]
+                    T = len(solos[i]["actions"])
+                    if len(a) < T:
+                        a = a + [0] * (T - len(a))    # shorter than the solo decode: mismatch shows at the first missing step
+                    rows[i].append({"actions": a, "reward": int(round(float(o["reward"][pos]) * 1e6)),
+                                    "ll": int(round(float(o["log_likelihood"][pos]) * 1e6)), "size": len(comp), "pos": pos})
+            for i in range(n_inst):
+                recs.append({"policy": pname, "env": ename + ("" if mode == "greedy" else "/multistart-best"), "inst": i,
+                             "solo": solos[i], "rows": rows[i], "pad": 1, "cmp_actions": mode == "greedy"})
     fails, _, st, ended = validate_records("InferTrace", recs, INV, "c14")
     viol = []
     for f in fails:
